@@ -12,7 +12,7 @@ Params(kind, r, c) ==
     CASE kind \in {"DenseView"} -> (0 .. MaxOff) \X (0 .. MaxOff)
       [] kind \in {"SymView", "TriUView", "TriLView"} -> (0 .. MaxOff) \X {0}
       [] kind \in BandKinds -> (0 .. r - 1) \X (0 .. c - 1)
-      [] kind \in {"SymBand", "TriBandU", "TriBandL"} -> (0 .. r - 1) \X {0}
+      [] kind \in SymBandKinds \cup TriBandKinds -> (0 .. r - 1) \X {0}
       [] kind = "DiagOfDense" -> {0} \X (0 .. MaxOff)
       [] kind = "VecInc" -> {pq \in (0 .. MaxOff) \X (2 .. MaxOff + 1) : pq[1] < pq[2]}
       [] kind = "RowOfDense" -> {pq \in (0 .. MaxOff) \X (1 .. MaxOff + 1) : pq[1] < pq[2]}
